@@ -16,7 +16,10 @@ PawnMoves(p, s) ==
   LET b == p.b  c == p.stm
       quiet == PawnQuiets(s, c, Occ(b))
       caps == {t \in PawnAtt[c][s] : ColorOf(b[t]) = 1 - c}
-      epc == IF p.ep = -1 THEN {} ELSE {t \in PawnAtt[c][s] : t = EpSquare(p)}
+      \* en passant: onto the square the enemy pawn passed, and only if that pawn stands beside (the definition is kept
+      \* meaningful on states whose ep file is not backed, which a sound library never hands out)
+      epc == IF p.ep = -1 \/ b[EpSquare(p)] # 0 \/ b[SqOf(p.ep, IF c = 0 THEN 4 ELSE 3)] # Mk(1 - c, PAWN) THEN {}
+             ELSE {t \in PawnAtt[c][s] : t = EpSquare(p)}
       tos == quiet \cup caps \cup epc
   IN UNION {IF RankOf(t) = PromoRank(c) THEN {<<s,t,k>> : k \in 2..5} ELSE {<<s,t,0>>} : t \in tos}
 
@@ -50,7 +53,9 @@ CastleOne(p, idx, kf, rf) ==
       kpath == Between(ks, kd) \cup {kd}
       rpath == Between(rs, rd) \cup {rd}
       b0 == [b EXCEPT ![ks] = 0, ![rs] = 0]
-  IN IF /\ \A e \in kpath \cup rpath : b0[e] = 0          \* vacant except for the two castling pieces
+  IN IF /\ RankOf(ks) = br /\ b[rs] = Mk(c, ROOK)         \* the right is backed: king at home rank, own rook on the named file
+        /\ (IF idx % 2 = 1 THEN FileOf(ks) < rfile ELSE rfile < FileOf(ks))
+        /\ \A e \in kpath \cup rpath : b0[e] = 0          \* vacant except for the two castling pieces
         /\ ~Attacked(b, ks, o)                             \* not out of check
         /\ \A e \in kpath : ~Attacked(b, e, o)             \* not through or into an attacked square
         /\ ~Attacked(CastleAfter(b, c, ks, rs, kd, rd), kd, o)   \* not in check once both have moved
